@@ -78,5 +78,6 @@ func factsC20(r *Repo) []Fact {
 		out = append(out, unknownFact("compileChecksNodeTypes", "Bool", "false", "compose", "method graph.compile not found"))
 	}
 	out = append(out, factsC20Wf(r)...)
+	out = append(out, factsC20Keys(r)...)
 	return out
 }
